@@ -21,7 +21,7 @@ ASSUMPTIONS = ['virtual time: library processing takes zero time, so retransmiss
 REQUIRED = ['mon.requests', 'mon.retransmissions_expected', 'mon.retransmissions_observed', 'mon.cancelled_by_reply',
             'mon.never_answered_windows', 'mon.reliable_link_cases', 'mon.close_reopen_cases', 'mon.timers_observed',
             'mon.shared_prefix_cases', 'mon.requests_sent_while_the_link_was_being_closed',
-            'mon.radio_link_mode_flag_checks']
+            'mon.radio_link_mode_flag_checks', 'mon.usb_driver_close_cases']
 DESC_TIMEOUT = 900
 PORT = 9
 EPS = 1e-9
@@ -36,6 +36,7 @@ def cases(tier, seed):
         out.append({'seed': seed * 1000003 + i, 'kind': kind, 'nreq': rnd.randint(1, 6),
                     'sched': rnd.choice(('rtb', 'random', 'pct')), 'quarter': rnd.randint(0, 11)})
     out += [{'seed': seed * 7 + i, 'kind': 'radioflag'} for i in range(2 if tier == 'quick' else 12)]
+    out += [{'seed': seed * 5 + i, 'kind': 'usbclose'} for i in range(2 if tier == 'quick' else 12)]
     return out
 
 
@@ -106,10 +107,82 @@ def run_radioflag(desc, ctx):
                 ctx.count('mon.radio_link_mode_flag_checks')
 
 
+def run_usbclose(desc, ctx):
+    """Nothing is transmitted on a closed link, at the USB driver itself: after close() returned - also when the cable
+    was pulled and the control transfer made by close() failed - a packet handed to the driver object is not written."""
+    harness.init()
+    from vf import detsched as ds
+    import cflib.crtp.usbdriver as ud
+    from cflib.crtp.crtpstack import CRTPPacket
+    rnd = random.Random(desc['seed'])
+    for case in range(8):
+        fail_on_close = case % 2 == 1
+        ob = {'writes': [], 'closed_at': None, 'errors': []}
+
+        class FakeCfUsb:
+            def __init__(self, devid=0):
+                self.dev = object()
+                self.handle = None
+                self.unplugged = False
+
+            def set_crtp_to_usb(self, on):
+                if not on and fail_on_close:
+                    self.unplugged = True
+                    raise IOError('USB device gone')
+
+            def send_packet(self, data):
+                ob['writes'].append((ds.CUR.now if ds.CUR else 0.0, bytes(bytearray(data)), ob['closed_at'] is not None))
+
+            def receive_packet(self):
+                ds.v_sleep(0.01)
+                return ()
+
+            def close(self):
+                pass
+
+            def scan(self):
+                return []
+
+        def fn(s):
+            old = ud.CfUsb
+            ud.CfUsb = FakeCfUsb
+            try:
+                drv = ud.UsbDriver()
+                drv.connect('usb://0', None, lambda msg: ob['errors'].append(msg))
+                for i in range(rnd.randint(1, 3)):
+                    drv.send_packet(CRTPPacket(0x5C, [i, 1, 2]))
+                s.sleep(rnd.choice((0.0, 0.005, 0.05)))
+                drv.close()
+                ob['closed_at'] = s.now
+                s.sleep(rnd.choice((0.0, 0.02)))
+                for i in range(2):
+                    drv.send_packet(CRTPPacket(0x3C, [9, i]))
+                s.sleep(0.05)
+            finally:
+                ud.CfUsb = old
+        _, abort, sch = harness.sched_case(fn, seed=desc['seed'] * 11 + case, policy=('random', 'rtb')[case % 2], horizon=200.0)
+        ctx.evals()
+        ctx.count('mon.usb_driver_close_cases')
+        ctx.nontrivial(('usbclose', desc['seed'], case))
+        info = {'control_transfer_in_close_failed': fail_on_close}
+        if abort is not None or sch.deaths:
+            ctx.violate('retry:usb:hang-or-thread-death', dict(info, abort=str(abort), deaths=[d[1] for d in sch.deaths][:2]),
+                        replay={'kind': 'usbclose', 'seed': desc['seed']})
+            continue
+        late = [w for w in ob['writes'] if w[2]]
+        if late:
+            ctx.violate('retry:transmitted-on-a-closed-usb-link', dict(info, packets=[w[1].hex() for w in late][:3]),
+                        replay={'kind': 'usbclose', 'seed': desc['seed']})
+        if not any(not w[2] for w in ob['writes']):
+            ctx.violate('retry:usb:nothing-written-while-the-link-was-open', info, replay={'kind': 'usbclose', 'seed': desc['seed']})
+
+
 def run(desc, ctx):
     harness.init()
     if desc.get('kind') == 'radioflag':
         return run_radioflag(desc, ctx)
+    if desc.get('kind') == 'usbclose':
+        return run_usbclose(desc, ctx)
     from vf import detsched as ds, simlink
     from cflib.crazyflie import Crazyflie
     from cflib.crtp.crtpstack import CRTPPacket
